@@ -109,11 +109,11 @@ fn c16_2a_sample_rate_fan_out() {
     core::mem::forget(mixer); core::mem::forget(sub_ctl); core::mem::forget(send_ctl); core::mem::forget(main_handle);
 }
 
-// @ob id=C02.4b,C11.4a strength=bounded tier=quick timeout=2400 bound="ibs 2, a callback remainder of 1 frame; no sub-tracks; one send track with one probe effect whose input buffer is pre-loaded with two grid frames" fn=backend/resources/mixer.rs::Mixer::process
+// @ob id=C02.4b,C11.4a strength=bounded tier=thorough timeout=3600 bound="ibs 2, a callback remainder of 1 frame; no sub-tracks; one send track with one probe effect whose input buffer is pre-loaded with two grid frames" fn=backend/resources/mixer.rs::Mixer::process
 // @req a short (remainder) chunk: out.len() = 1 < internal buffer size
 // @ens the send track's effects are asked for exactly out.len() frames (never for frames that are not rendered); out[0] is the effect of the first input frame; the mixer's scratch buffer is all zero on return
 #[kani::proof]
-#[kani::unwind(4)]
+#[kani::unwind(3)]
 #[kani::stub(f32::powf, powf32_model)]
 fn c02_4b_send_tracks_get_chunk_sized_slices() {
     let (mut mixer, sub_ctl, send_ctl, main_handle) = Mixer::new(0, 1, 48000, 2, MainTrackBuilder::new().sound_capacity(0));
